@@ -9,8 +9,8 @@ use ark_ec::{
     pairing::PairingOutput,
     scalar_mul::wnaf::WnafContext,
     short_weierstrass::{self as sw, SWCurveConfig},
-    twisted_edwards::{self as te, TECurveConfig},
-    AdditiveGroup, AffineRepr, CurveGroup, PrimeGroup,
+    twisted_edwards::{self as te, MontCurveConfig, TECurveConfig},
+    AdditiveGroup, CurveConfig, AffineRepr, CurveGroup, PrimeGroup,
 };
 use ark_ff::{
     fields::{Fp2, Fp2Config, Fp64, MontBackend, MontConfig},
@@ -52,6 +52,53 @@ impl Fp2Config for F13_2Config {
     const FROBENIUS_COEFF_FP2_C1: &'static [F13] = &[MontFp!("1"), MontFp!("12")];
 }
 pub type F13_2 = Fp2<F13_2Config>;
+
+#[derive(MontConfig)]
+#[modulus = "19"]
+#[generator = "2"]
+pub struct F19Config;
+pub type F19 = Fp64<MontBackend<F19Config, 1>>;
+
+#[derive(MontConfig)]
+#[modulus = "5"]
+#[generator = "2"]
+pub struct F5Config;
+pub type F5 = Fp64<MontBackend<F5Config, 1>>;
+
+// toy curves (same parameters as props/C03 toy 1): y^2 = x^3 + 2 over F_13, 19 points, prime order
+#[derive(Clone, Default, PartialEq, Eq)]
+pub struct ToySw;
+impl CurveConfig for ToySw {
+    type BaseField = F13;
+    type ScalarField = F19;
+    const COFACTOR: &'static [u64] = &[1];
+    const COFACTOR_INV: F19 = MontFp!("1");
+}
+impl SWCurveConfig for ToySw {
+    const COEFF_A: F13 = MontFp!("0");
+    const COEFF_B: F13 = MontFp!("2");
+    const GENERATOR: sw::Affine<Self> = sw::Affine::new_unchecked(MontFp!("1"), MontFp!("4"));
+}
+// -x^2 + y^2 = 1 + 6 x^2 y^2 over F_13 (complete), 20 points, r = 5, cofactor 4
+#[derive(Clone, Default, PartialEq, Eq)]
+pub struct ToyTe;
+impl CurveConfig for ToyTe {
+    type BaseField = F13;
+    type ScalarField = F5;
+    const COFACTOR: &'static [u64] = &[4];
+    const COFACTOR_INV: F5 = MontFp!("4");
+}
+impl TECurveConfig for ToyTe {
+    const COEFF_A: F13 = MontFp!("12");
+    const COEFF_D: F13 = MontFp!("6");
+    const GENERATOR: te::Affine<Self> = te::Affine::new_unchecked(MontFp!("3"), MontFp!("9"));
+    type MontCurveConfig = ToyTe;
+}
+impl MontCurveConfig for ToyTe {
+    const COEFF_A: F13 = MontFp!("6");
+    const COEFF_B: F13 = MontFp!("5");
+    type TECurveConfig = ToyTe;
+}
 
 // ---- helpers ----
 fn h64<T: Hash>(t: &T) -> u64 {
@@ -469,6 +516,31 @@ fn run_gt(a: &[Arg]) -> Vec<Arg> {
     ok(o)
 }
 
+fn run_gt_pair(op: &str, a: &[Arg]) -> Vec<Arg> {
+    use ark_ec::pairing::Pairing;
+    type E = bls12_381::Bls12_381;
+    type Fr = bls12_381::Fr;
+    let g1 = bls12_381::G1Projective::generator();
+    let g2 = bls12_381::G2Projective::generator();
+    if op == "gt_params" {
+        let f = fld_params(0, 12);
+        return ok(vec![f[1].clone(), fe_out(&E::pairing(g1, g2).0)]);
+    }
+    let s: Vec<Fr> = a[3][..4].iter().map(|v| Fr::from(u(v))).collect();
+    let l: GT = E::pairing(g1 * s[0], g2 * s[1]);
+    let r: GT = match to_u64(&a[3][4]) {
+        0 => E::pairing(g1 * s[2], g2 * s[3]),
+        1 => E::pairing(g1, g2) * s[2] * s[3],
+        2 => E::pairing(g1 * s[2], g2) + E::pairing(g1, g2 * s[3]),
+        3 => E::multi_pairing([g1 * s[2], g1 * s[3]], [g2, g2]),
+        4 => -E::pairing(g1 * s[2], g2 * s[3]),
+        _ => panic!("harness: bad pairing mode"),
+    };
+    let mut o = rel(&l, &r);
+    o.push(bools(&[l.is_zero(), r.is_zero()]));
+    ok(o)
+}
+
 // ---- polynomials over bls12_381 Fr ----
 fn pexpr<F: ark_ff::FftField>(e: u64, p: &DensePolynomial<F>, q: &DensePolynomial<F>) -> DensePolynomial<F> {
     match e {
@@ -593,11 +665,16 @@ fn run(op: &str, a: &[Arg]) -> Vec<Arg> {
             (0, 12) => run_gt(a),
             _ => unsupported(),
         },
+        "gt_pair" | "gt_params" => match (cfg, kind) {
+            (0, 12) => run_gt_pair(op, a),
+            _ => unsupported(),
+        },
         "sw_rel" | "sw_params" => {
             let r = match (cfg, kind) {
                 (0, 1) => run_sw::<bls12_381::g1::Config>(op, a),
                 (0, 2) => run_sw::<bls12_381::g2::Config>(op, a),
                 (2, 1) => run_sw::<secp256k1::Config>(op, a),
+                (5, 1) => run_sw::<ToySw>(op, a),
                 _ => unsupported(),
             };
             if op == "sw_params" {
@@ -609,6 +686,7 @@ fn run(op: &str, a: &[Arg]) -> Vec<Arg> {
         "te_rel" | "te_params" => {
             let r = match (cfg, kind) {
                 (8, 1) => run_te::<ed_on_bls12_381::EdwardsConfig>(op, a),
+                (5, 1) => run_te::<ToyTe>(op, a),
                 _ => unsupported(),
             };
             if op == "te_params" {
